@@ -621,7 +621,12 @@ impl QueryEngine {
                 }
                 Self::extract_predicates_from_plan(&filter.input, predicates);
             }
+            // A filter above a projection or an aggregate speaks about that node's output
+            // columns, which may re-define a name (`value_f64 * 2 AS value_f64`,
+            // `sum(value_f64) AS value_f64`): it says nothing about the stored column of
+            // that name, so what was collected above is dropped.
             LogicalPlan::Projection(proj) => {
+                predicates.clear();
                 Self::extract_predicates_from_plan(&proj.input, predicates);
             }
             LogicalPlan::Sort(sort) => {
@@ -631,9 +636,13 @@ impl QueryEngine {
                 Self::extract_predicates_from_plan(&limit.input, predicates);
             }
             LogicalPlan::Aggregate(agg) => {
+                predicates.clear();
                 Self::extract_predicates_from_plan(&agg.input, predicates);
             }
-            _ => {}
+            LogicalPlan::TableScan(_) => {}
+            // Anything else (join, sub-query alias, union, ...) combines or renames
+            // relations; column names above it do not identify stored columns.
+            _ => predicates.clear(),
         }
     }
 
